@@ -62,7 +62,8 @@ Svcs == {SvcNone, SvcOne, SvcSecondDefault, SvcNoDefault, SvcFalseFirst}
 FieldNames == {"UserName", "UserEmail", "EPPN", "Surname", "GivenName", "CommonName", "Scoped"}
 FieldSets == { {}, FieldNames, {"UserEmail", "EPPN"}, {"UserName", "UserEmail"} } \cup { {f} : f \in FieldNames }
 Contents == {"plain", "xmlspecial", "unicode", "space", "tabnl", "cr"}
-Sess(f, g, c, n, s, t) == [fields |-> f, groups |-> g, custom |-> c, nidfmt |-> n, subj |-> s, content |-> t]
+\* nid: the session's name identifier is "set" or the "empty" string (a user record without the field it is taken from)
+Sess(f, g, c, n, s, t) == [fields |-> f, groups |-> g, custom |-> c, nidfmt |-> n, subj |-> s, content |-> t, nid |-> "set"]
 BaseSess == Sess({"UserName", "UserEmail"}, 0, 0, FALSE, FALSE, "plain")
 
 Keys == {"key", "signer", "both"}
@@ -70,7 +71,8 @@ Methods == {"unset", "sha1", "sha256", "sha384", "sha512"}
 Idp(k, m, i) == [key |-> k, method |-> m, inter |-> i]
 BaseIdp == Idp("key", "unset", 0)
 
-BaseIn == [kind |-> "sso", alias |-> FALSE, url |-> "absent", idx |-> "absent", iipos |-> "equal", reg |-> RegSimple,
+\* reqsubj: the AuthnRequest carries a <saml:Subject> with a name identifier the REQUESTER wrote (saml-core 3.4.1)
+BaseIn == [kind |-> "sso", alias |-> FALSE, reqsubj |-> FALSE, url |-> "absent", idx |-> "absent", iipos |-> "equal", reg |-> RegSimple,
            svc |-> SvcNone, enc |-> FALSE, sess |-> BaseSess, idp |-> BaseIdp, set |-> S1]
 
 \* R: routing - requested index and URL agree, disagree, or are absent
@@ -91,6 +93,9 @@ FamT == { [BaseIn EXCEPT !.set = s, !.iipos = p] : s \in Settings, p \in IIPos }
 \* C: content of the session strings under both signature digests, clear and encrypted
 FamC == { [BaseIn EXCEPT !.sess = Sess(FieldNames, 2, 1, TRUE, TRUE, t), !.svc = SvcOne, !.enc = e, !.idp = Idp("key", m, 0)] :
             t \in Contents, e \in BOOLEAN, m \in {"unset", "sha256"} }
+\* S: whose name identifier - the request proposes a subject, the session has or lacks one
+FamS == { [BaseIn EXCEPT !.reqsubj = r, !.sess = [Sess(f, 1, 0, n, FALSE, "plain") EXCEPT !.nid = d], !.enc = e] :
+            r \in BOOLEAN, d \in {"set", "empty"}, f \in { {}, {"UserName", "UserEmail"} }, n \in BOOLEAN, e \in BOOLEAN }
 \* X (thorough): routing x configuration x encryption, attributes x encryption x launch kind
 FamX == { [r EXCEPT !.idp = Idp(ky, m, 0), !.enc = e, !.svc = SvcOne] : r \in FamR, ky \in {"key", "signer"}, m \in {"sha1", "sha512"}, e \in BOOLEAN }
         \cup { [a EXCEPT !.enc = TRUE, !.kind = k, !.iipos = IF k = "sso" THEN "equal" ELSE "none"] : a \in FamA, k \in {"sso", "idpinit"} }
@@ -104,7 +109,7 @@ R   == in.reg
 Designated == IF SSO THEN Rule(R, CHOOSE u \in UrlReadings(in.url) : TRUE, CHOOSE i \in IdxReadings(in.idx) : TRUE)
               ELSE First(PostEPs(R))
 
-Init == /\ in \in FamR \cup FamA \cup FamK \cup FamT \cup FamC \cup (IF Tier = "t" THEN FamX ELSE {})
+Init == /\ in \in FamR \cup FamA \cup FamK \cup FamT \cup FamC \cup FamS \cup (IF Tier = "t" THEN FamX ELSE {})
         /\ SSO => Validatable(in.iipos, in.set)
         /\ Designated # None                       \* fed by C05's successful shapes only
         /\ pc = "MakeAssertion" /\ sel = Designated
@@ -213,6 +218,7 @@ AnswersRequest   == Emitted => LET want == IF SSO THEN "reqid" ELSE "absent" IN 
 IssuedByIdP      == Emitted => resp.issuer = "idpEntity" /\ assn.issuer = "idpEntity"
 OpensWithinSkew  == Emitted => assn.nb >= Now - Skew
 BearerExpiry     == Emitted => assn.bearerNooa = Now + Mid
+\* ("NameID" refers to the session's name identifier, empty or not - never to anything the request carried)
 SessionOnly      == Emitted => /\ assn.nameid.val = "NameID"
                                /\ \A j \in DOMAIN assn.attrs : \A q \in DOMAIN assn.attrs[j].vals : assn.attrs[j].vals[q] \in SessionRefs
 ConfiguredMethod == IF in.idp.method = "unset" THEN "sha1" ELSE in.idp.method
